@@ -53,10 +53,10 @@ class CSSCharsetRule(cssrule.CSSRule):
                                              parentStyleSheet=parentStyleSheet)
         self._atkeyword = '@charset'
 
+        # the setter only assigns a valid encoding, the attribute must exist
+        self._encoding = None
         if encoding:
             self.encoding = encoding
-        else:
-            self._encoding = None
 
         self._readonly = readonly
 
